@@ -298,6 +298,89 @@ func runC05(c *Ctx) {
 	if lemma && a.PairedUsed == 0 {
 		R.Fatal("the paired-map lemma was established but never used by E1 (the timestamp-record dereference was not found)")
 	}
+	// ---- a slot holds the body of the packet filed under its number, nothing accumulated
+	{
+		R.Rules["S.slot-store"] = "a store into a slot of the part table puts there exactly the body of the packet being filed (the Body slice itself or a copy of it made from an empty slice): nothing derived from what the slot held before - a retransmitted packet replaces its slot"
+		n := 0
+		for _, fn := range c.RepoFuncs("service") {
+			for _, b := range fn.Blocks {
+				for _, ins := range b.Instrs {
+					st, ok := ins.(*ssa.Store)
+					if !ok {
+						continue
+					}
+					ia, isIA := st.Addr.(*ssa.IndexAddr)
+					if !isIA {
+						continue
+					}
+					toTable := false
+					for _, o := range c.origins(ia.X, nil, nil) {
+						if o.Kind == "field" && strings.HasSuffix(o.Name, ".subcontractingRecord") {
+							toTable = true
+						}
+					}
+					if !toTable {
+						continue
+					}
+					n++
+					var isBody func(v ssa.Value, depth int) (bool, string)
+					isBody = func(v ssa.Value, depth int) (bool, string) {
+						if depth > 4 {
+							return false, "value too deeply nested"
+						}
+						switch x := v.(type) {
+						case *ssa.UnOp:
+							if fa, isFA := x.X.(*ssa.FieldAddr); isFA {
+								stt := fa.X.Type().Underlying().(*types.Pointer).Elem().Underlying().(*types.Struct)
+								if stt.Field(fa.Field).Name() == "Body" {
+									return true, ""
+								}
+							}
+						case *ssa.Call:
+							if app, isApp := isBuiltinCall(x, "append"); isApp && len(app.Call.Args) == 2 {
+								empty := false
+								switch f := app.Call.Args[0].(type) {
+								case *ssa.Const:
+									empty = f.IsNil()
+								case *ssa.MakeSlice:
+									if k, isK := constInt(f.Len); isK && k == 0 {
+										empty = true
+									}
+								case *ssa.Slice:
+									// x[:0] of a fresh make
+									if _, isMk := f.X.(*ssa.MakeSlice); isMk && f.Low == nil && f.High != nil {
+										if k, isK := constInt(f.High); isK && k == 0 {
+											empty = true
+										}
+									}
+								}
+								if !empty {
+									desc := app.Call.Args[0].Name()
+									if vi, isI := app.Call.Args[0].(ssa.Instruction); isI {
+										desc = c.constructOf(fn, vi)
+									}
+									return false, "append to " + desc + ": what the slot (or another buffer) held before stays in front of the new body, so a packet that arrives twice is stored twice"
+								}
+								return isBody(app.Call.Args[1], depth+1)
+							}
+							if nm := calleeName(&x.Call); nm == "bytes.Clone" || nm == "slices.Clone" {
+								return isBody(x.Call.Args[0], depth+1)
+							}
+						}
+						return false, "the stored value is not the Body of the message being filed"
+					}
+					okB, why := isBody(st.Val, 0)
+					stt := report.Discharged
+					if !okB {
+						stt = report.Violated
+					}
+					R.Add("S.slot-store", fmt.Sprintf("%s / %s", shortFn(fn), c.constructOf(fn, ins)), c.P.RelPos(st.Pos()), stt, why)
+				}
+			}
+		}
+		R.Notes["slot_stores"] = n
+		R.Require("S.slot-store", 1, "")
+	}
 	// ---- the completed body concatenates every slot of the table, in index order
 	{
 		R.Rules["S.concat-all"] = "the body of the completed message is built by appending the slots of the part table over an ascending index loop from 0 whose bound is the announced total that the completion test compared with (or the whole table's length): not a prefix, not a re-slice"
